@@ -24,8 +24,13 @@ def tidy_input_string(s: str) -> str:
     return ''.join(t).lower().replace('_', '')
 
 
-@functools.lru_cache(CACHE_SIZE)
 def str_to_bitstore(s: str) -> BitStore:
+    # The result can depend on these options, so they need to be part of the cache key.
+    return _str_to_bitstore(s, bitstring.options.mxfp_overflow, bitstring.options.lsb0)
+
+
+@functools.lru_cache(CACHE_SIZE)
+def _str_to_bitstore(s: str, mxfp_overflow: str, lsb0: bool) -> BitStore:
     _, tokens = bitstring.utils.tokenparser(s)
     bs = BitStore()
     for token in tokens:
